@@ -89,11 +89,18 @@ fn h<T: std::hash::Hash>(t: &T) -> u64 {
 
 fn round_robin(st: &mut St, max_calls: usize) {
     let ctx = context::current();
+    let past = std::time::Instant::now() - std::time::Duration::from_secs(1);
     for n in 1..=5usize {
         // every pattern of which of two clones issues each call
         for k in 0..=max_calls {
+          // which calls carry a context whose deadline has already passed (a caller re-using an old
+          // context): none, every other one, two in every three - in every phase
+          for expired_mask in [0u32, 0x5555_5555, 0xAAAA_AAAA, 0xDB6D_B6DB, 0xB6DB_6DB6, 0x6DB6_DB6D, 0xFFFF_FFFE, 0x7FFF_FFFF] {
           for describe in [false, true] {
-            if describe && k > 8 {
+            if describe && (k > 8 || expired_mask != 0) {
+                continue;
+            }
+            if expired_mask != 0 && k > 9 {
                 continue;
             }
             for pattern in 0..(1u32 << k.min(10)) {
@@ -106,24 +113,29 @@ fn round_robin(st: &mut St, max_calls: usize) {
                     if describe && c % 2 == 1 {
                         let _ = format!("{s:?} {:?}", rr);
                     }
-                    let f = s.call(ctx, c as u64);
+                    let mut cctx = ctx;
+                    if expired_mask & (1 << (c % 32)) != 0 {
+                        cctx.deadline = past;
+                    }
+                    let f = s.call(cctx, c as u64);
                     futures::pin_mut!(f);
                     if drive(f, 10).is_none() {
                         st.failures.push(("C20-rr-call-stuck".into(), format!("n={n}")));
                     }
                 }
                 st.evals += 1;
-                st.distinct.insert(h(&("rr", n, k, pattern, describe)));
+                st.distinct.insert(h(&("rr", n, k, pattern, describe, expired_mask)));
                 if k == 7 && pattern == 0b1010101 {
                     st.samples.push(format!("round robin n={n} calls={k} clone pattern {pattern:#b}: backends hit {:?}", log.borrow().iter().map(|x| x.0).collect::<Vec<_>>()));
                 }
                 if let Err(e) = balanced(&log.borrow(), n) {
-                    st.failures.push(("C20-rr-unbalanced".into(), format!("n={n} calls={k} clone pattern {pattern:#b}{}: {e}", if describe { " (the stub is Debug-formatted before every second call)" } else { "" })));
+                    st.failures.push(("C20-rr-unbalanced".into(), format!("n={n} calls={k} clone pattern {pattern:#b}{}{}: {e}", if describe { " (the stub is Debug-formatted before every second call)" } else { "" }, if expired_mask != 0 { format!(" (calls {expired_mask:#b} carry a context whose deadline has passed)") } else { String::new() })));
                 }
                 if log.borrow().len() != k {
                     st.failures.push(("C20-rr-lost-call".into(), format!("n={n}: {k} calls, {} reached a backend", log.borrow().len())));
                 }
             }
+          }
           }
         }
         // task-level concurrency: 3 calls created, first polls in every order, all stay in flight
